@@ -155,8 +155,21 @@ def _winit(scen_name, sched, quiet):
     _SCEN = importlib.import_module(scen_name)
 
 
+_WARM = False
+
+
 def _wrun(case):
+    global _WARM
     try:
+        if not _WARM:
+            # the first run in a process differs from later ones (lazy initialisation inside the
+            # libraries adds scheduling points): run the first case once for warm-up and discard it,
+            # so that a (case, seed) pair determines the run exactly, in every worker and in replay
+            _WARM = True
+            try:
+                _SCEN.run_case(case)
+            except BaseException:  # noqa
+                pass
         return case, _SCEN.run_case(case)
     except BaseException as e:  # noqa
         import traceback
